@@ -310,5 +310,6 @@ theorem tie_number_to_bit_other (v L : PV) (fuel : Nat) (h1 : ∀ s, v ≠ .str 
   | arr l => rfl
   | set l => rfl
   | dict ks vs => rfl
+  | rat n d => rfl
 
 end Dsw.Tie
